@@ -236,3 +236,16 @@ impl Z80 {
         bus.pc_callback(self.regs.get_pc());
     }
 }
+
+#[cfg(rustzx_verif)]
+impl Z80 {
+    /// Prefix pending from the previous `emulate` call (DD/FD/ED chain)
+    pub fn verif_active_prefix(&self) -> Prefix {
+        self.active_prefix
+    }
+
+    /// Overrides pending prefix
+    pub fn verif_set_active_prefix(&mut self, prefix: Prefix) {
+        self.active_prefix = prefix;
+    }
+}
